@@ -1671,7 +1671,10 @@ func checkR1CasesRule(e *Env, m *loaderModel, s *rawSite, key, rule string) {
 	esrch := int64(or.Consts["SECCOMP_FILTER_FLAG_TSYNC_ESRCH"])
 	r1v := flow.ResultN(s.call, 0)
 	errv := flow.ResultN(s.call, 2)
-	type env struct{ flags, r1, op int64 }
+	type env struct {
+		flags, r1, op int64
+		params        map[*ssa.Parameter]int64 // bindings inside a helper that is being evaluated
+	}
 	// the errno of the call converted by a helper that maps 0 to nil
 	nilErrno := func(v ssa.Value) bool {
 		c, ok := v.(*ssa.Call)
@@ -1680,6 +1683,7 @@ func checkR1CasesRule(e *Env, m *loaderModel, s *rawSite, key, rule string) {
 	// phi values are resolved by the edge the path came in on (short-circuit && / || in a case expression)
 	phiVal := map[*ssa.Phi]int64{}
 	var eval func(v ssa.Value, en env, depth int) (int64, bool)
+	var walk func(f *ssa.Function, en env, depth int) *ssa.Return
 	eval = func(v ssa.Value, en env, depth int) (int64, bool) {
 		if depth > 20 {
 			return 0, false
@@ -1688,6 +1692,27 @@ func checkR1CasesRule(e *Env, m *loaderModel, s *rawSite, key, rule string) {
 			return k, true
 		}
 		switch x := v.(type) {
+		case *ssa.Call:
+			// a small helper of the module over integers and booleans (`flags.in(set)`, `hasFlag(flags, f)`): evaluated with
+			// its parameters bound to the arguments' values
+			cal := x.Call.StaticCallee()
+			if cal == nil || x.Call.IsInvoke() || len(cal.Blocks) == 0 || len(cal.Blocks) > 12 || cal.Pkg == nil || !strings.HasPrefix(cal.Pkg.Pkg.Path(), load.Module) ||
+				cal.Signature.Results().Len() != 1 || len(cal.Params) != len(x.Call.Args) || depth > 8 {
+				return 0, false
+			}
+			sub := env{flags: en.flags, r1: en.r1, op: en.op, params: map[*ssa.Parameter]int64{}}
+			for i, a := range x.Call.Args {
+				av, ok := eval(a, en, depth+1)
+				if !ok {
+					return 0, false
+				}
+				sub.params[cal.Params[i]] = av
+			}
+			ret := walk(cal, sub, depth+1)
+			if ret == nil {
+				return 0, false
+			}
+			return eval(flow.RetResults(ret)[0], sub, depth+1)
 		case *ssa.Const:
 			if x.Value != nil && x.Value.Kind() == constant.Bool {
 				if constant.BoolVal(x.Value) {
@@ -1699,6 +1724,10 @@ func checkR1CasesRule(e *Env, m *loaderModel, s *rawSite, key, rule string) {
 			k, ok := phiVal[x]
 			return k, ok
 		case *ssa.Parameter:
+			if en.params != nil {
+				k, ok := en.params[x]
+				return k, ok
+			}
 			if x == fn.Params[1] {
 				return en.flags, true
 			}
@@ -1767,57 +1796,61 @@ func checkR1CasesRule(e *Env, m *loaderModel, s *rawSite, key, rule string) {
 		}
 		return 0, false
 	}
+	walk = func(f *ssa.Function, en env, depth int) *ssa.Return {
+		b := f.Blocks[0]
+		var ret *ssa.Return
+		var prev *ssa.BasicBlock
+		for steps := 0; steps < 50 && b != nil; steps++ {
+			// bind the phis of this block by the incoming edge
+			for _, in := range b.Instrs {
+				ph, ok := in.(*ssa.Phi)
+				if !ok {
+					break
+				}
+				for i, pb := range b.Preds {
+					if pb == prev {
+						if v, ok := eval(ph.Edges[i], en, 0); ok {
+							phiVal[ph] = v
+						}
+					}
+				}
+			}
+			cur := b
+			last := b.Instrs[len(b.Instrs)-1]
+			switch x := last.(type) {
+			case *ssa.Return:
+				ret = x
+				b = nil
+			case *ssa.If:
+				c, ok := eval(x.Cond, en, 0)
+				if !ok {
+					b = nil
+					break
+				}
+				if c != 0 {
+					b = b.Succs[0]
+				} else {
+					b = b.Succs[1]
+				}
+			case *ssa.Jump:
+				b = b.Succs[0]
+			default:
+				b = nil
+			}
+			prev = cur
+		}
+		return ret
+	}
 	nCases, bad, und := 0, 0, 0
 	var firstBad string
 	for flags := int64(0); flags < 64; flags++ {
 		for _, r1 := range []int64{0, 7} {
 			nCases++
-			en := env{flags, r1, int64(or.Consts["SECCOMP_SET_MODE_FILTER"])}
-			b := fn.Blocks[0]
-			var ret *ssa.Return
-			var prev *ssa.BasicBlock
+			en := env{flags: flags, r1: r1, op: int64(or.Consts["SECCOMP_SET_MODE_FILTER"])}
 			for k := range phiVal {
 				delete(phiVal, k)
 			}
-			for steps := 0; steps < 50 && b != nil; steps++ {
-				// bind the phis of this block by the incoming edge
-				for _, in := range b.Instrs {
-					ph, ok := in.(*ssa.Phi)
-					if !ok {
-						break
-					}
-					for i, pb := range b.Preds {
-						if pb == prev {
-							if v, ok := eval(ph.Edges[i], en, 0); ok {
-								phiVal[ph] = v
-							}
-						}
-					}
-				}
-				cur := b
-				last := b.Instrs[len(b.Instrs)-1]
-				switch x := last.(type) {
-				case *ssa.Return:
-					ret = x
-					b = nil
-				case *ssa.If:
-					c, ok := eval(x.Cond, en, 0)
-					if !ok {
-						b = nil
-						break
-					}
-					if c != 0 {
-						b = b.Succs[0]
-					} else {
-						b = b.Succs[1]
-					}
-				case *ssa.Jump:
-					b = b.Succs[0]
-				default:
-					b = nil
-				}
-				prev = cur
-			}
+			ret := walk(fn, en, 0)
 			if ret == nil {
 				und++
 				continue
